@@ -7,6 +7,7 @@ import (
 	"bytes"
 	"errors"
 	"fmt"
+	jsonv1 "github.com/go-json-experiment/json/v1"
 	"io"
 	"math/rand/v2"
 	"reflect"
@@ -474,6 +475,19 @@ type umArgs struct {
 	ZeroP  int    `json:"zero_p"`
 	EOFTog bool   `json:"eof_together"`
 	Buffer bool   `json:"buffer"`
+	// Opts: "" | "legacy-errors" (ReportErrorsWithLegacySemantics: the value is validated as a whole before
+	// anything is stored) | "v1" (DefaultOptionsV1) - the same options go to every route
+	Opts string `json:"opts,omitempty"`
+}
+
+func (a *umArgs) opts() []json.Options {
+	switch a.Opts {
+	case "legacy-errors":
+		return []json.Options{jsonv1.ReportErrorsWithLegacySemantics(true)}
+	case "v1":
+		return []json.Options{jsonv1.DefaultOptionsV1()}
+	}
+	return nil
 }
 
 type tStruct struct {
@@ -527,7 +541,7 @@ func runUnmarshal(w *run.W, a *umArgs) {
 	w.Eval(1)
 	// (1) UnmarshalRead(r) == Unmarshal(all)
 	want := newTarget(a.Target)
-	werr := json.Unmarshal(a.Input, want)
+	werr := json.Unmarshal(a.Input, want, a.opts()...)
 	got := newTarget(a.Target)
 	var rd io.Reader
 	if a.Buffer {
@@ -535,7 +549,7 @@ func runUnmarshal(w *run.W, a *umArgs) {
 	} else {
 		rd = &sched{data: a.Input, rng: rand.New(rand.NewPCG(a.Seed, 5)), maxN: a.MaxN, zeroP: a.ZeroP, eofTog: a.EOFTog}
 	}
-	gerr := json.UnmarshalRead(rd, got)
+	gerr := json.UnmarshalRead(rd, got, a.opts()...)
 	if errClass(werr) != errClass(gerr) || !reflect.DeepEqual(want, got) {
 		w.Violate("unmarshalread-differs", map[string]string{"target": a.Target, "buffer": fmt.Sprint(a.Buffer)},
 			"Unmarshal: %v %s / UnmarshalRead: %v %s\ninput=%q", dump(want), errClass(werr), dump(got), errClass(gerr), a.Input)
@@ -560,9 +574,9 @@ func runUnmarshal(w *run.W, a *umArgs) {
 	dec := jsontext.NewDecoder(rd)
 	for i, sp := range spans {
 		want := newTarget(a.Target)
-		werr := json.Unmarshal(a.Input[sp[0]:sp[1]], want)
+		werr := json.Unmarshal(a.Input[sp[0]:sp[1]], want, a.opts()...)
 		got := newTarget(a.Target)
-		gerr := json.UnmarshalDecode(dec, got)
+		gerr := json.UnmarshalDecode(dec, got, a.opts()...)
 		// offsets in errors are relative to the value for Unmarshal and to the stream for
 		// UnmarshalDecode: compare error classes without positions here (C16 checks positions)
 		if (werr == nil) != (gerr == nil) || (werr == nil && !reflect.DeepEqual(want, got)) {
@@ -571,6 +585,9 @@ func runUnmarshal(w *run.W, a *umArgs) {
 			return
 		}
 		w.Count("unmarshaldecode_compared", 1)
+		if a.Opts != "" {
+			w.Count("unmarshaldecode_compared_legacy_options", 1)
+		}
 		if gerr != nil {
 			// after a failed UnmarshalDecode the decoder may be left inside the value
 			// (nothing promises otherwise): the script ends at the first error
@@ -812,7 +829,8 @@ func generate(w *run.W) {
 			}
 		}
 		for k := 0; k < 6; k++ {
-			w.Do("unmarshal", &umArgs{Input: in, Target: []string{"any", "map", "struct", "slice", "struct", "struct2", "structs", "struct3", "struct3", "ints"}[r.IntN(10)], Seed: r.Uint64(), MaxN: 1 + r.IntN(40), ZeroP: r.IntN(10), EOFTog: r.IntN(2) == 0, Buffer: r.IntN(5) == 0})
+			w.Do("unmarshal", &umArgs{Input: in, Target: []string{"any", "map", "struct", "slice", "struct", "struct2", "structs", "struct3", "struct3", "ints"}[r.IntN(10)], Seed: r.Uint64(), MaxN: 1 + r.IntN(40), ZeroP: r.IntN(10), EOFTog: r.IntN(2) == 0, Buffer: r.IntN(5) == 0,
+				Opts: []string{"", "", "", "legacy-errors", "v1"}[r.IntN(5)]})
 		}
 	}
 }
